@@ -65,6 +65,13 @@ def make_config(spec):
             c.detector.initial_position.longitude = float(spec["det_lon"])
         if "sun_moon_cuts" in spec:
             c.detector.sun_moon.sun_moon_cuts = bool(spec["sun_moon_cuts"])
+    # generic overrides: {"detector.radio.nantennas": 4, ...}
+    for path, val in (spec.get("set") or {}).items():
+        obj = c
+        parts = path.split(".")
+        for a in parts[:-1]:
+            obj = getattr(obj, a)
+        setattr(obj, parts[-1], val)
     return c
 
 
